@@ -180,7 +180,28 @@ pub fn run(rep: &mut Rep) {
         // different external nullifier / message id -> different nullifier
         if i % 2 == 0 {
             rep.ev();
-            let ext2 = if i % 4 == 0 { ext + Fr::from(1u64) } else { rand_fr(&mut rng) };
+            // neighbours, unrelated values, and values whose 32-byte encodings differ from the first one in a single
+            // byte - every byte position in turn, the most significant one included
+            let ext2 = match (i / 2) % 4 {
+                0 => ext + Fr::from(1u64),
+                1 => rand_fr(&mut rng),
+                _ => {
+                    let pos = (i / 4) % 32;
+                    let mut b = fr_le32(&ext);
+                    if pos == 31 {
+                        b[31] = if b[31] == 0 { 1 } else { b[31] - 1 };
+                    } else {
+                        b[pos] ^= 1 << rng.gen_range(0..8);
+                    }
+                    rep.stratum(format!("cross-ext|encodings-differ-in-byte-{pos}-only"));
+                    let v = num_bigint::BigUint::from_bytes_le(&b);
+                    if v < p() {
+                        big_to_fr(&v)
+                    } else {
+                        ext + Fr::from(1u64)
+                    }
+                }
+            };
             let w3 = mk_witness(secret, ext2, id, limit, &s2, &mut rng);
             if let Ok((m3, v3)) = cheap_message(&w3, &mut rng) {
                 if v3.nullifier == v1.nullifier {
